@@ -758,7 +758,17 @@ func c18EnumHostile(size, shard, nshards int, emit func(c18EvCase)) {
 				}
 				// top-level constants
 				for _, m := range c18TopMutations(version, room, self) {
+					// identifier fields of the events with rules of their own (create, member, power levels)
+					// are never sampled away: their auth paths look at the identifier itself
+					always := (m.Key == "room_id" || m.Key == "sender" || m.Key == "state_key") && (role == "create" || role == "power_levels" || (role == "member" && variant == 0))
 					for i := range m.Values {
+						if always {
+							idx++
+							if idx%nshards == shard {
+								emit(mk(c18ApplyTop(base, m.Key, &m.Values[i], false), false))
+							}
+							continue
+						}
 						if pick() {
 							emit(mk(c18ApplyTop(base, m.Key, &m.Values[i], false), false))
 						}
